@@ -3,6 +3,11 @@
 parser from Python's ast, the Gallina emitter, scope analysis for the
 known-defect trigger predicates, and the seeded model generator.
 
+Reference value specs: ["int",z] ["bool",b] ["str",s] ["float",repr] ["none",None] ["list",[..]] ["dict",[[k,v]..]]
+["tuple",[..]] ["space",i] ["cells",i,name] ["module",name] and ["lit",key]: an instance of a SUBCLASS of
+int/float/str from c15lits.LITS (IntEnum/StrEnum members, float/str/int subclasses); such references are read only
+by the "probe" cells (spec flag "probe", names PROBE_NAMES, listed in case["probes"]), never by int-typed formulas.
+
 AST nodes:
  ["int",z] ["none"] ["name",x] ["attr",e,a] ["bin",op,a,b] ["if",c,a,b]
  ["call",f,[args],[kwnames],[kwvals]] ["sub",e,[idx]] ["lam",[ps],body]
